@@ -13,7 +13,7 @@ from asynq import tools as T  # noqa: E402
 from asynq.decorators import (make_async_decorator, get_async_fn, get_async_or_sync_fn, is_async_fn,  # noqa: E402
                               is_pure_async_fn, has_async_fn, async_call)
 
-DECOS = ["asynq", "pure", "proxy", "syncpair", "made", "dedup", "aretry", "alru", "percache"]
+DECOS = ["asynq", "pure", "proxy", "syncpair", "made", "made_pure", "dedup", "aretry", "alru", "percache"]
 BINDINGS = ["function", "method", "classmethod", "staticmethod"]
 RECEIVERS = ["inst", "subinst", "falsyinst", "cls", "subcls", "cls_explicit_self"]
 SPELL = ["pos", "kw", "default", "mixed"]
@@ -21,6 +21,8 @@ BODIES = ["plain", "generator", "blocking", "raising"]
 
 
 def valid(deco, binding, receiver):
+    if deco == "made_pure" and binding not in ("function", "staticmethod"):
+        return False
     if binding == "function":
         return receiver == "inst" and deco != "percache"
     if deco in ("aretry", "alru") and binding != "method":
@@ -95,19 +97,25 @@ class C09(object):
         gen_body = body_kind in ("generator", "blocking", "raising")
 
         # -- the four raw shapes of the decorated function ---------------------------------------
-        def mk(kind_tag, first):
-            """first: None | 'self' | 'cls' -> a plain python function of the right shape."""
+        def mk(kind_tag, first, twin=False):
+            """first: None | 'self' | 'cls' -> a plain python function of the right shape.
+            twin=True: a second function from the same factory (same qualified name), whose
+            results carry a "twin" mark - it must never be confused with the first."""
             tagof = {None: lambda x: "fn", "self": lambda x: x.tag, "cls": lambda x: x.__name__}[first]
+            if twin:
+                base_tagof = tagof
+                tagof = lambda x: "twin:" + base_tagof(x)
             if first is None:
+                fn_tag = "twin:fn" if twin else "fn"
                 if gen_body:
                     def f(a, b=0, *, c=0):
-                        return (yield from impl_gen("fn", a, b, c))
+                        return (yield from impl_gen(fn_tag, a, b, c))
                 else:
                     def f(a, b=0, *, c=0):
-                        return impl_plain("fn", a, b, c)
+                        return impl_plain(fn_tag, a, b, c)
 
                 def s(a, b=0, *, c=0):
-                    return sync_impl("fn", a, b, c)
+                    return sync_impl(fn_tag, a, b, c)
             else:
                 if gen_body:
                     def f(x, a, b=0, *, c=0):
@@ -139,6 +147,14 @@ class C09(object):
                     def p(x, a, b=0, *, c=0):
                         return target.asynq(x, a, b, c=c)
                 return A.async_proxy()(wrap(p) if wrap else p)
+            if deco == "made_pure":
+                pbase = A.asynq(pure=True)(inner)
+
+                @A.asynq(pure=True)
+                def wrapper_fn2(*args, **kwargs):
+                    v = yield pbase(*args, **kwargs)
+                    return ("wrapped", v)
+                return make_async_decorator(pbase, wrapper_fn2, "made_pure")
             base = A.asynq()(inner)
             if deco == "made":
                 @A.asynq(pure=True)
@@ -175,6 +191,12 @@ class C09(object):
         FalsySub = type("FalsySub", (Base,), {"tag": "falsy", "__len__": lambda self: 0})
         inst, subinst, falsy = Base(), Sub(), FalsySub()
         func = decorate(fraw, sraw, None) if binding == "function" else None
+        # a twin callable from the same factory (same module and qualified name) for the
+        # conventions that run next to other tasks
+        twin_fn = None
+        if deco in ("dedup", "asynq", "alru", "aretry") and binding in ("function", "staticmethod"):
+            tf, ts = mk("fn", None, twin=True)
+            twin_fn = decorate(tf, ts, None)
 
         def lookup(receiver):
             """-> (callable, leading explicit args, expected bound tag) or None if not applicable."""
@@ -216,7 +238,7 @@ class C09(object):
         body_exp = ("body", tag, a, b, c)
         if body_kind == "raising":
             exp_async = ("E", "body-raises:%r" % ((tag, a, b, c),))
-        elif deco == "made":
+        elif deco in ("made", "made_pure"):
             exp_async = ("V", ("wrapped", body_exp))
         else:
             exp_async = ("V", body_exp)
@@ -247,8 +269,20 @@ class C09(object):
                 return (yield make_future())
 
             @A.asynq()
+            def twin_caller():
+                # the same arguments go to the twin at the same time; each must run its own body
+                try:
+                    return (yield twin_fn.asynq(*args[len(lead):], **kw))
+                except SimError as e:
+                    return ("E", e.tag)
+
+            @A.asynq()
             def root():
-                return (yield [caller.asynq()] + [competitor.asynq(i) for i in range(ncomp)])[0]
+                extra = [twin_caller.asynq()] if twin_fn is not None else []
+                res = yield extra + [caller.asynq()] + [competitor.asynq(i) for i in range(ncomp)]
+                if extra and body_kind != "raising" and res[0] != ("body", "twin:fn", a, b, c):
+                    out.append(("same-body", "%s %s: a second function from the same factory, called with the same arguments at the same time, returned %r" % (deco, binding, res[0])))
+                return res[len(extra)]
             return root()
         results = {}
         for conv in case.get("order", ["sync", "value", "yield", "async_call"]):
@@ -275,8 +309,9 @@ class C09(object):
                 out.append(("convention", "%s %s via %s, %s(%s%s): gave %r, expected %r" % (deco, binding, case.get("receiver"), conv, args[len(lead):], kw, got, exp)))
                 break
             want_log = ("sync_fn", tag, a, b, c) if (conv == "sync" and deco == "syncpair") else ("body", tag, a, b, c)
-            cached = deco in ("alru", "percache") and not log and body_kind != "raising"
-            if not cached and (not log or log[0] != want_log or (len(log) != 1 and deco not in ("aretry",))):
+            own_log = [e for e in log if not str(e[1]).startswith("twin:")]
+            cached = deco in ("alru", "percache") and not own_log and body_kind != "raising"
+            if not cached and (not own_log or own_log[0] != want_log or (len(own_log) != 1 and deco not in ("aretry",))):
                 out.append(("same-body", "%s %s via %s, %s: ran %r, expected exactly %r" % (deco, binding, case.get("receiver"), conv, log, want_log)))
                 break
         # classification helpers must be consistent with how the callable can be called
